@@ -176,6 +176,13 @@ func (a *addHandler) handleUpdate(ctx context.Context, logID string, origin stri
 	// Whatever happened, we usually get the latest trusted CP from the witness (whether it's the old one or the one we've just updated to).
 	// If we get nothing at all, then something's gone quite wrong.
 	if trusted == nil {
+		// These refusals never carry a checkpoint, but they are still answers to the client and not internal errors.
+		switch updateErr {
+		case witness.ErrUnknownLog:
+			return http.StatusNotFound, nil, "", nil
+		case witness.ErrNoValidSignature:
+			return http.StatusForbidden, nil, "", nil
+		}
 		return http.StatusInternalServerError, nil, "", fmt.Errorf("something went quite wrong during update: %v", updateErr)
 	}
 	// We'll need to use the old CP when sending responses, so parse it once here:
